@@ -3,14 +3,15 @@
 set -e
 REPO="${VERIF_REPO:-/repo}"
 HERE="$(cd "$(dirname "$0")/.." && pwd)"
+BUILD="${VERIF_BUILD:-$HERE/.build}"
 export CARGO_NET_OFFLINE=true PYO3_PYTHON=/venv/bin/python
-export CARGO_TARGET_DIR="$HERE/.build/rustsim-target"
-mkdir -p "$CARGO_TARGET_DIR" "$HERE/.build/rustsim-src/src"
+export CARGO_TARGET_DIR="$BUILD/rustsim-target"
+mkdir -p "$CARGO_TARGET_DIR" "$BUILD/rustsim-src/src"
 # work on a copy so that the path dependency can point at $REPO and Cargo.lock stays out of git churn
-cp "$HERE/rustsim/src/main.rs" "$HERE/.build/rustsim-src/src/main.rs"
-sed "s#path = \"/repo/rust\"#path = \"$REPO/rust\"#" "$HERE/rustsim/Cargo.toml" > "$HERE/.build/rustsim-src/Cargo.toml"
-cp "$REPO/rust/Cargo.lock" "$HERE/.build/rustsim-src/Cargo.lock"
-( cd "$HERE/.build/rustsim-src" && cargo build --release --offline --quiet 2>&1 | grep -v -E '^warning|^\s*(\||=|-->|[0-9]+ \|)|^$' || true )
+cp "$HERE/rustsim/src/main.rs" "$BUILD/rustsim-src/src/main.rs"
+sed "s#path = \"/repo/rust\"#path = \"$REPO/rust\"#" "$HERE/rustsim/Cargo.toml" > "$BUILD/rustsim-src/Cargo.toml"
+cp "$REPO/rust/Cargo.lock" "$BUILD/rustsim-src/Cargo.lock"
+( cd "$BUILD/rustsim-src" && cargo build --release --offline --quiet 2> "$BUILD/cargo-sim.log" ) || { cat "$BUILD/cargo-sim.log"; exit 1; }
 test -x "$CARGO_TARGET_DIR/release/rustsim"
-cp "$CARGO_TARGET_DIR/release/rustsim" "$HERE/.build/rustsim.tmp" && mv "$HERE/.build/rustsim.tmp" "$HERE/.build/rustsim"
-echo "built $HERE/.build/rustsim"
+cp "$CARGO_TARGET_DIR/release/rustsim" "$BUILD/rustsim.tmp" && mv "$BUILD/rustsim.tmp" "$BUILD/rustsim"
+echo "built $BUILD/rustsim"
